@@ -45,10 +45,15 @@ type recAdapter struct {
 	failDeq  int
 	failAck  int
 	preload  int
+	retain   bool // keep the []byte handed to Enqueue instead of copying it
 }
 
 func newRecAdapter(prio bool, idx int) *recAdapter {
-	return &recAdapter{idx: idx, prio: prio, unacked: map[string]adItem{}}
+	a := &recAdapter{idx: idx, prio: prio, unacked: map[string]adItem{}}
+	if vt.S != nil {
+		a.retain = vt.Rand().Intn(2) == 0
+	}
+	return a
 }
 
 func envData(raw []byte) int {
@@ -89,7 +94,13 @@ func (a *recAdapter) enqueue(item any, prio int) bool {
 			a.log("enq!", d, "")
 			return "0"
 		}
-		it := adItem{raw: append([]byte(nil), raw...), prio: prio, seq: a.seq, data: envData(raw)}
+		// an adapter may keep the slice it was handed (the repository's own mocks do): the library
+		// must not write into it afterwards. Half of the adapters keep it, half copy it.
+		kept := raw
+		if !a.retain {
+			kept = append([]byte(nil), raw...)
+		}
+		it := adItem{raw: kept, prio: prio, seq: a.seq, data: envData(raw)}
 		a.seq++
 		a.pending = append(a.pending, it)
 		if a.prio {
